@@ -69,7 +69,7 @@ func (node *tagCycleNode) Execute(ctx *ExecutionContext, writer TemplateWriter) 
 			val = inner.value
 		}
 
-		t.value = val
+		t.value = detached(val)
 
 		if !t.node.silent {
 			out, err := cycleOutput(ctx, item, val)
@@ -83,7 +83,7 @@ func (node *tagCycleNode) Execute(ctx *ExecutionContext, writer TemplateWriter) 
 
 		cycleValue := &tagCycleValue{
 			node:  node,
-			value: val,
+			value: detached(val),
 			idx:   idx,
 		}
 
